@@ -168,7 +168,7 @@ def _build_evaluator(
         VectorUnarySum,
         VectorExpressionSum,
     )
-    from optyx.core.matrices import QuadraticForm
+    from optyx.core.matrices import QuadraticForm, MatrixSum, FrobeniusNorm
 
     if isinstance(expr, Constant):
         value = expr.value
@@ -233,6 +233,9 @@ def _build_evaluator(
         vec_fn = _build_vector_evaluator(expr.vector, var_indices)
         return lambda x, vf=vec_fn, Q=Q: float(vf(x) @ Q @ vf(x))
 
+    elif isinstance(expr, (MatrixSum, FrobeniusNorm)):
+        return _build_matrix_reduction_evaluator(expr, var_indices)
+
     elif isinstance(expr, VectorPowerSum):
         # sum(x ** k) - efficient numpy implementation
         indices = np.array([var_indices[v.name] for v in expr.vector._variables])
@@ -293,6 +296,29 @@ def _build_evaluator(
         )
 
 
+def _build_matrix_reduction_evaluator(
+    expr: Any,
+    var_indices: dict[str, int],
+) -> Callable[[NDArray[np.floating]], NDArray[np.floating] | np.floating | float]:
+    """Build an evaluator for MatrixSum / FrobeniusNorm (scalar reductions of a matrix)."""
+    from optyx.core.matrices import FrobeniusNorm, MatrixVariable
+
+    matrix = expr.matrix
+    if isinstance(matrix, MatrixVariable):
+        # Every (i, j) entry counts, so shared variables of symmetric
+        # matrices contribute once per position (matches evaluate()).
+        indices = np.array(
+            [var_indices[v.name] for row in matrix._variables for v in row]
+        )
+        if isinstance(expr, FrobeniusNorm):
+            return lambda x, idx=indices: np.linalg.norm(x[idx])
+        return lambda x, idx=indices: np.sum(x[idx])
+
+    # MatrixExpression: one evaluator per element
+    elem_fns = [_build_evaluator(e, var_indices) for e in matrix.flatten()]
+    return lambda x, fns=elem_fns: float(sum(f(x) for f in fns))
+
+
 def _build_vector_evaluator(
     vec: Any,
     var_indices: dict[str, int],
@@ -334,7 +360,7 @@ def _build_evaluator_iterative(
         VectorVariable,
         VectorExpressionSum,
     )
-    from optyx.core.matrices import QuadraticForm
+    from optyx.core.matrices import QuadraticForm, MatrixSum, FrobeniusNorm
 
     # Stack for iterative traversal: (expression, phase, children_fns)
     # phase 0: first visit, phase 1: children processed
@@ -428,6 +454,10 @@ def _build_evaluator_iterative(
             Q = node.matrix
             vec_fn = _build_vector_evaluator(node.vector, var_indices)
             result_stack.append(lambda x, vf=vec_fn, Q=Q: float(vf(x) @ Q @ vf(x)))
+            continue
+
+        if isinstance(node, (MatrixSum, FrobeniusNorm)):
+            result_stack.append(_build_matrix_reduction_evaluator(node, var_indices))
             continue
 
         # Binary operation
